@@ -10,6 +10,7 @@ import (
 	"io"
 	"regexp"
 	"strings"
+	"sync"
 	"testing"
 	"time"
 
@@ -469,5 +470,45 @@ func TestC13(t *testing.T) {
 			return map[string]any{"defects": c.Defects, "slo": c.Spec.SPs[c.SP].SLO, "transport": c.Tr, "violated": sent.Violated, "reply": d.Kind, "success": success, "response_xml": short(string(d.XML), 400)}
 		})
 		return vs
+	})
+}
+
+// TestC13SlowBody: a POST-binding logout request whose body arrives late. NotOnOrAfter lies 2 s after the request starts, the
+// body arrives after 5 s: whenever the IdP gets to judge the request (it cannot before it has read it), the request has
+// passed its NotOnOrAfter by at least 3 s, so the answer must not be Success. (A slower machine only widens the gap.)
+func TestC13SlowBody(t *testing.T) {
+	col := ev.For("C13", "exploration", c13Rule)
+	runPlain(t, col, "TestC13", func(fail func(*ev.Violation, any)) {
+		spec := stdSpec()
+		var wg sync.WaitGroup
+		for k, enc := range []string{A, spsim.EncodingDeflate} {
+			wg.Add(1)
+			go func(k int, enc string) {
+				defer wg.Done()
+				w := mustBuild(spec)
+				now := time.Now()
+				l := spsim.NewLogoutReq(fmt.Sprintf("_slow-%d", k), spec.SPs[0].EntityID, "usermark0")
+				l.IssueInstant = spsim.Instant(now.Add(-10*time.Second), 3)
+				l.NotOnOrAfter = spsim.Instant(now.Add(2*time.Second), 3)
+				x := xt.Write(l.Tree(plainStyle), plainStyle.W)
+				if enc != A {
+					x = spsim.Deflate(x)
+				}
+				hr, _, _ := spsim.Encode(spec.IdP.Route("slo"), x, spsim.Transport{Binding: "post", Plus: true, Encoding: enc, RelayState: "rs"}, nil)
+				hr.BodyDelayMs = 5000
+				rep := obs.Do(w.Handler, hr)
+				elapsed := time.Since(now)
+				d := obs.Decode(rep)
+				r := obs.ReadResponse(d.Root())
+				success := r != nil && r.Success()
+				col.Case(true, ev.Fingerprint("slow-body", enc), []string{"slow-body", fmt.Sprintf("slow-body/success=%v", success)}, func() any {
+					return map[string]any{"not_on_or_after_offset_s": 2, "body_delay_s": 5, "elapsed_s": elapsed.Seconds(), "success": success}
+				})
+				if success && elapsed >= 5*time.Second {
+					fail(ev.V("C13/success-for-invalid-request:notonorafter-passed", "logout request whose body arrived 5 s after the request began, 3 s after its NotOnOrAfter: status Success (the validity window was judged against an earlier moment than the one the request could be known at)"), map[string]any{"request": hr})
+				}
+			}(k, enc)
+		}
+		wg.Wait()
 	})
 }
